@@ -119,20 +119,25 @@ func VerifC07cLabel(n, P int) {
 	buf.WriteString(content)
 	sh.VerifLines() <- &line.Line{Content: buf, Count: count, TransmittedPerc: perc, SourceID: id}
 	p := make([]byte, P)
-	k, err := sh.Read(p)
-	verifrt.Assert(err == nil, "Read failed")
 	h := chandlers.NewClientHandler("srv")
-	h.Write(p[:k])
+	for first := true; first || sh.VerifPending() > 0; first = false {
+		k, err := sh.Read(p)
+		verifrt.Assert(err == nil, "Read failed")
+		h.Write(p[:k])
+	}
 	want := "REMOTE|host|" + pad3(perc) + "|" + utoa(count) + "|" + id + "|" + content
 	frame := len(want) + 1
 	var printed string
 	for _, c := range lg.Calls {
 		printed += c
 	}
-	if frame > P {
+	if frame > P && printed != want {
 		// known (shared with C01): a record longer than the transport read is cut
 		verifrt.Finding("C01-KF3", true)
 		return
+	}
+	if frame > P {
+		verifrt.Reach("record-longer-than-read")
 	}
 	if n == 0 || content[n-1] != '\n' {
 		// a record for an unterminated last line is held until the delimiter: printed without newline
